@@ -977,6 +977,11 @@ func (self *Analyzer) callExpression(node pAst.CallExpression) ast.AnalyzedCallE
 	// If this is a thread spawn, create a thread handle as the result
 	// TODO: migrate this to the `core-lib` and reference the type from here
 	if node.IsSpawn {
+		// The base could not be resolved or called (an error was already reported): there is no result type.
+		if thisExpressionResultsIn == nil {
+			thisExpressionResultsIn = ast.NewUnknownType()
+		}
+
 		thisExpressionResultsIn = ast.NewObjectType([]ast.ObjectTypeField{
 			ast.NewObjectTypeField(
 				pAst.NewSpannedIdent("join", node.Span()), ast.NewFunctionType(
